@@ -144,6 +144,9 @@ FUNCS = {
         ensures=[
             # C11: a bundle received from another node leaves with its primary block as it came
             ('received_bundle_primary_untouched', 'implies(received(ctr), primary_kept(ctr))', ['C11']),
+            # C05: a fragment keeps the identity (creation time, also a zero one, and sequence number) it was given
+            ('fragment_primary_untouched',
+             'implies(flag(old(unwrap(ctr.bundle.primary).bundle_flags), F_IS_FRAGMENT), primary_kept(ctr))', ['C05', 'C11']),
             ('crc_considered_stale', 'not contains(ghost.crc_ok, ctr.bundle)', ['C08']),
         ],
     ),
